@@ -9,6 +9,7 @@ import (
 	"os"
 	"path/filepath"
 	"regexp"
+	"runtime"
 	"sort"
 	"strings"
 	"sync"
@@ -56,6 +57,7 @@ type Config struct {
 	capS              int
 	feasMs            int
 	cross             bool
+	workers           int
 }
 
 var harnessFileRe = regexp.MustCompile(`^//vp:target\s+(\S+)`)
@@ -70,7 +72,8 @@ func main() {
 	flag.StringVar(&tier, "tier", "quick", "quick|thorough")
 	flag.Int64Var(&cfg.seed, "seed", 0, "seed")
 	flag.StringVar(&cfg.only, "only", "", "run only harnesses whose name contains this")
-	flag.IntVar(&cfg.jobs, "j", 8, "harnesses explored concurrently")
+	flag.IntVar(&cfg.jobs, "j", 0, "harnesses explored concurrently (0 = auto)")
+	flag.IntVar(&cfg.workers, "w", 0, "exploration workers per harness (0 = auto)")
 	flag.BoolVar(&cfg.trace, "trace", false, "print stacks of dropped paths")
 	flag.BoolVar(&cfg.keep, "keep", false, "keep all query files")
 	flag.IntVar(&cfg.capS, "cap", 0, "final query cap in seconds (default 60 quick / 300 thorough)")
@@ -227,6 +230,19 @@ func runProperty(cfg *Config) int {
 	workRoot := filepath.Join(cfg.verif, ".work", fmt.Sprintf("%s-%d", cfg.prop, os.Getpid()))
 	os.MkdirAll(workRoot, 0o755)
 	results := make([]*HarnessResult, len(jobs))
+	ncpu := runtime.NumCPU()
+	if cfg.jobs == 0 {
+		cfg.jobs = len(jobs)
+		if cfg.jobs > 4 {
+			cfg.jobs = 4
+		}
+	}
+	if cfg.workers == 0 {
+		cfg.workers = ncpu / cfg.jobs
+		if cfg.workers < 1 {
+			cfg.workers = 1
+		}
+	}
 	sem := make(chan struct{}, cfg.jobs)
 	var wg sync.WaitGroup
 	for i, j := range jobs {
@@ -268,26 +284,37 @@ func runHarness(cfg *Config, prog *ssa.Program, pkg *ssa.Package, name string, v
 		ReachSample: map[string]map[string]string{}, Funcs: map[string]string{}, Stats: map[string]int{}, Overflow: map[string]int{}}
 	dir := filepath.Join(workRoot, name)
 	os.MkdirAll(dir, 0o755)
-	sol := newSolver(dir, cfg.feasMs)
-	defer sol.close()
 	pool := &FinalPool{capS: cfg.capS, cross: cfg.cross, dir: dir, keepAll: cfg.keep}
-	e := &Exec{prog: prog, sol: sol, pool: pool, harness: name, tier: cfg.tier, seed: cfg.seed, stats: map[string]int{}, funcs: map[*ssa.Function]bool{},
-		globals: map[*ssa.Global]Val{}, lazyMemo: map[string]StoreEntry{}, globalHeap: map[int]Val{}, strIntern: map[string]int{},
-		unwind: 24, sliceL: 2, maxSteps: 20000000, maxPaths: 200000, trace: cfg.trace, reachWanted: map[string]int{}, dropped: map[string]int{}, vpModel: vpModel,
+	sh := &Shared{prog: prog, pool: pool, harness: name, tier: cfg.tier, seed: cfg.seed, trace: cfg.trace, vpModel: vpModel,
+		globals: map[*ssa.Global]Val{}, lazyMemo: map[string]StoreEntry{}, globalHeap: map[int]Val{}, strIntern: map[string]int{}, seen: map[string]bool{},
+		unwind: 24, sliceL: 2, maxSteps: 20000000, maxPaths: 200000, reachWanted: map[string]int{},
 		boundsUsed: map[string]int{}, optionsUsed: map[string]bool{}, notes: map[string]bool{}}
+	sh.decls = append(sh.decls, prelude...)
+	nw := cfg.workers
+	if nw < 1 {
+		nw = 1
+	}
+	var workers []*Exec
+	for i := 0; i < nw; i++ {
+		w := &Exec{Shared: sh, sol: newSolver(sh, dir, cfg.feasMs), stats: map[string]int{}, funcs: map[*ssa.Function]bool{}, dropped: map[string]int{}}
+		workers = append(workers, w)
+	}
+	defer func() {
+		for _, w := range workers {
+			w.sol.close()
+		}
+	}()
+	e := workers[0]
 	defer func() {
 		if r := recover(); r != nil {
 			res.Err = fmt.Sprint("engine failure: ", r)
 		}
 		res.WallS = time.Since(t0).Seconds()
 	}()
-	for _, d := range prelude {
-		sol.send(d)
-	}
 	// package init (concrete, lenient) to populate globals
 	e.initMode = true
 	var base *State
-	e.run(pkg.Func("init"), nil, func(o outcome) {
+	e.run(pkg.Func("init"), nil, nil, func(o outcome) {
 		if o.kind == "ok" {
 			base = o.st
 		} else {
@@ -298,7 +325,7 @@ func runHarness(cfg *Config, prog *ssa.Program, pkg *ssa.Package, name string, v
 		}
 	})
 	e.initMode = false
-	e.pathSeq = 0
+	sh.pathSeq = 0
 	e.dropped = map[string]int{}
 	e.funcs = map[*ssa.Function]bool{}
 	if base == nil {
@@ -309,18 +336,31 @@ func runHarness(cfg *Config, prog *ssa.Program, pkg *ssa.Package, name string, v
 	// reach labels declared in the harness source (so that a label never reached is noticed)
 	declared := map[string]bool{}
 	collectReachLabels(fn, declared, map[*ssa.Function]bool{})
-	counts := e.run(fn, base, nil)
+	counts := e.run(fn, base, workers, nil)
 	done := pool.wait()
 	res.Paths = counts
-	res.Dropped = e.dropped
-	res.Queries = sol.queries
 	res.FinalQ = len(done)
-	res.SolverS = sol.dur.Seconds() + float64(pool.solverT)/1e9
-	res.Stats = map[string]int{}
-	for k, v := range e.stats {
-		if strings.HasPrefix(k, "bal0|") || strings.HasPrefix(k, "addr|") {
-			continue
+	res.SolverS = float64(pool.solverT) / 1e9
+	allStats := map[string]int{}
+	for _, w := range workers {
+		for k, v := range w.dropped {
+			res.Dropped[k] += v
 		}
+		res.Queries += w.sol.queries
+		res.SolverS += w.sol.dur.Seconds()
+		for k, v := range w.stats {
+			allStats[k] += v
+		}
+		for f := range w.funcs {
+			e.funcs[f] = true
+		}
+		if w != e {
+			e.merges += w.merges
+			e.mergeFallback += w.mergeFallback
+		}
+	}
+	e.stats = allStats
+	for k, v := range allStats {
 		res.Stats[k] = v
 	}
 	res.Bounds = e.boundsUsed
